@@ -310,10 +310,10 @@ theorem metaLoop_meta (fonts : List FontSpec) (unused : List SlotSpec) (off : Na
     rw [e, e8, metaLoop_skip, ih _ (fun x hx => hf x (by simp [hx])) hrest]
     rfl
 
-theorem fontLoop_fonts (dec : Dec) (fonts : List FontSpec) (P btail : Bytes) (extra : List (Int × Int))
-    (hfit : FontsFit fonts P.length) :
-    fontLoop dec (P ++ (encFontNames fonts ++ btail)) fonts.length (metaOf fonts P.length ++ extra) = decodeFonts dec fonts := by
-  induction fonts generalizing P with
+theorem fontLoop_fonts (dec : Dec) (fonts : List FontSpec) (P btail : Bytes) (extra : List (Int × Int)) (acc : Nat)
+    (hacc : acc ≤ P.length) (hfit : FontsFit fonts P.length) :
+    fontLoop dec (P ++ (encFontNames fonts ++ btail)) fonts.length (metaOf fonts P.length ++ extra) acc = decodeFonts dec fonts := by
+  induction fonts generalizing P acc with
   | nil => simp [fontLoop, decodeFonts]
   | cons f fs ih =>
     obtain ⟨hoff, hname, hrest⟩ := hfit
@@ -341,15 +341,18 @@ theorem fontLoop_fonts (dec : Dec) (fonts : List FontSpec) (P btail : Bytes) (ex
       rw [a, b]
       exact slice_zero_append _ _ _ rfl
     rw [e1, e2, qs]
+    have hbig : ¬ (acc + f.name.length >
+        (P ++ (encS Order.be 4 (f.name.length : Int) ++ (f.name ++ (f.pad ++ encFontNames fs)) ++ btail)).length) := by
+      simp; omega
+    rw [if_neg hbig]
     have e : P ++ (encS Order.be 4 (f.name.length : Int) ++ (f.name ++ (f.pad ++ encFontNames fs)) ++ btail)
         = (P ++ (encS Order.be 4 (f.name.length : Int) ++ (f.name ++ f.pad))) ++ (encFontNames fs ++ btail) := by simp
     have hl : (P ++ (encS Order.be 4 (f.name.length : Int) ++ (f.name ++ f.pad))).length = P.length + 4 + f.name.length + f.pad.length := by
       simp; omega
     rw [e]
-    have := ih (P ++ (encS Order.be 4 (f.name.length : Int) ++ (f.name ++ f.pad))) (by rw [hl]; exact hrest)
+    have := ih (P ++ (encS Order.be 4 (f.name.length : Int) ++ (f.name ++ f.pad))) (acc + f.name.length) (by rw [hl]; omega) (by rw [hl]; exact hrest)
     rw [hl] at this
     rw [this]
-
 
 theorem parseFmap_encFmap (dec : Dec) (h : FmapHdr) (fonts : List FontSpec) (unused : List SlotSpec) (htail bpre btail : Bytes)
     (hh : h.valid) (hf : ∀ f ∈ fonts, f.valid) (hfit : FontsFit fonts bpre.length) (hu : ∀ s ∈ unused, s.valid)
@@ -466,6 +469,6 @@ theorem parseFmap_encFmap (dec : Dec) (h : FmapHdr) (fonts : List FontSpec) (unu
   rw [km]
   simp only []
   rw [← hBD]
-  exact fontLoop_fonts dec fonts bpre btail _ hfit
+  exact fontLoop_fonts dec fonts bpre btail _ 0 (Nat.zero_le _) hfit
 
 end Drx
